@@ -68,29 +68,42 @@ def expandSplits (affs : List Aff) (rows : List PRow) : List Tx :=
     if isGlobalSplit r then affs.map (fun a => { r.tx with aff := a })
     else [r.tx])
 
-/-- `replace_global_security_splits(sorted_security_txs)`; `order` is the iteration order of the
-    affiliate HashSet (a permutation of `nonGlobalAffs rows`). `none` = the "non-global split near
-    global split" error. -/
-def replaceGlobalSplits (dflt : Aff) (order : List Aff → List Aff) (rows : List PRow) : Option (List Tx) :=
+def insertAffByKey (a : Aff) : List Aff → List Aff
+  | [] => [a]
+  | b :: bs => if a.key ≤ b.key then a :: b :: bs else b :: insertAffByKey a bs
+
+/-- `non_global_affiliates.sort_by(|a, b| a.id().cmp(b.id()))` -/
+def sortAffs (l : List Aff) : List Aff := l.foldr insertAffByKey []
+
+/-- The affiliates a global split is expanded to: those with a row of the security, plus the
+    `holders` passed by the caller (the default affiliate when the security has an opening
+    position), the default affiliate if there is none at all; sorted by id. -/
+def splitAffs (dflt : Aff) (holders : List Aff) (rows : List PRow) : List Aff :=
+  let affs := nonGlobalAffs rows
+  let affs := affs ++ (holders.filter (fun h => !affs.contains h))
+  let affs := if affs.isEmpty then [dflt] else affs
+  sortAffs affs
+
+/-- `replace_global_security_splits_with_holders(sorted_security_txs, holders)`.
+    `none` = the "non-global split near global split" error. -/
+def replaceGlobalSplits (dflt : Aff) (holders : List Aff) (rows : List PRow) : Option (List Tx) :=
   if splitConflict [] rows then none
-  else
-    let affs := order (nonGlobalAffs rows)
-    let affs := if affs.isEmpty then [dflt] else affs
-    some (expandSplits affs rows)
+  else if (rows.filter isGlobalSplit).isEmpty then some (rows.map (·.tx))
+  else some (expandSplits (splitAffs dflt holders rows) rows)
 
 /-- What is computed for one security from its (sorted) rows: a split-validation failure is an
     error of that security alone, with no rows. -/
-def secResultSorted (dflt : Aff) (order : List Aff → List Aff) (init : Option Status)
-    (sortedRowsS : List PRow) : List Delta × Option Failure :=
-  match replaceGlobalSplits dflt order sortedRowsS with
+def secResultSorted (dflt : Aff) (init : Option Status) (sortedRowsS : List PRow) :
+    List Delta × Option Failure :=
+  match replaceGlobalSplits dflt (if init.isSome then [dflt] else []) sortedRowsS with
   | none => ([], some (.err .splitConflict))
   | some txs => deltaList dflt init txs
 
 /-- `run_acb_app_to_delta_models`: per security (in order of first appearance in the sorted
     rows; the Rust result is a HashMap) the deltas and the failure, if any. -/
-def runPipeline (dflt : Aff) (order : Nat → List Aff → List Aff) (inits : Nat → Option Status)
-    (rows : List PRow) : List (Nat × List Delta × Option Failure) :=
+def runPipeline (dflt : Aff) (inits : Nat → Option Status) (rows : List PRow) :
+    List (Nat × List Delta × Option Failure) :=
   let sorted := sortRows rows
-  (secsOf sorted).map (fun s => (s, secResultSorted dflt (order s) (inits s) (rowsOf s sorted)))
+  (secsOf sorted).map (fun s => (s, secResultSorted dflt (inits s) (rowsOf s sorted)))
 
 end Acb
